@@ -302,6 +302,11 @@ def _evap(drv, fn, T):
     return [b2f(x) for x in r["val"]]
 
 
+def _window(case):
+    """the CONFIGURED vacuum window in seconds (what the YAML file says, not what `const` returned)"""
+    return float(case["t_start"]) * 3600, (float(case["t_start"]) + float(case["t_dur"])) * 3600
+
+
 def _stride_one(impl):
     """every step recorded? (recording stride 1: the row spacing equals the code's time step)"""
     c = impl["const"]
@@ -351,7 +356,7 @@ def _model_steps(drv, case, impl, visf):
     req = {"op": "evapWindow", "visf": visf, "stage": "cooling", "t0": f2b(0.0),
            "p_vac": f2b(c["p_vac"]), "kappa": f2b(c["kappa"]), "dHe": f2b(c["Dh_evaporation"]),
            "m_water": f2b(c["m_water"]), "k_B": f2b(c["k_B"]),
-           "t_vac_start": f2b(c["t_vac_start"]), "t_vac_duration": f2b(c["t_vac_duration"]),
+           "t_vac_start": f2b(float(case["t_start"])), "t_vac_duration": f2b(float(case["t_dur"])),
            "dt": f2b(v["dt"]), "dz": f2b(dz), "lambda_eff": f2b(lam), "diffusivity": f2b(diff),
            # row r is the state BEFORE step r+1
            "i": list(range(1, n + 1)),
@@ -413,7 +418,7 @@ def compare(case, impl, model):
         # guard: the step-by-step tie needs every step recorded (recording stride 1)
         if not _stride_one(impl):
             return dis
-        lo, hi = c["t_vac_start"] * 3600, (c["t_vac_start"] + c["t_vac_duration"]) * 3600
+        lo, hi = _window(case)
         # which steps evaluate the flux, and which correlation each stage uses (observed calls of the real run)
         cl = impl["calls"]
         if cl["liquid_after_solid"]:
@@ -521,7 +526,11 @@ def predicates(case, impl):
             return out
         p = impl["pair"]
         c = impl["const"]
-        lo, hi = c["t_vac_start"] * 3600, (c["t_vac_start"] + c["t_vac_duration"]) * 3600
+        lo, hi = _window(case)
+        for key, want in (("t_vac_start", float(case["t_start"])), ("t_vac_duration", float(case["t_dur"]))):
+            if c[key] != want:
+                out.append(Failure(clause="window_as_configured", key=f"window_as_configured|calculateDerived|{key}",
+                                   detail=f"configured {key} = {want!r} but the run uses {c[key]!r}"))
         if impl.get("shelf_calls"):
             out.append(Failure(clause="no_evap_outside_window", key="no_evap_outside_window|_run_1D|shelf",
                                detail=f"a shelf run called the evaporation helpers {impl['shelf_calls']} times"))
@@ -580,7 +589,7 @@ def classify(case, impl):
         tags.append("runs=" + "/".join(str(impl["runs"][c]) for c in ("VISF", "shelf")))
         if "pair" in impl and "visf" in impl:
             c = impl["const"]
-            lo, hi = c["t_vac_start"] * 3600, (c["t_vac_start"] + c["t_vac_duration"]) * 3600
+            lo, hi = _window(case)
             tn, tl = impl["visf"]["t_nuc"], impl["visf"]["t_last"]
             if not hi > lo:
                 tags.append("window=empty")
@@ -639,7 +648,8 @@ def _utils_case(rng, n=100):
 def _window_case(rng, cls=None):
     # every step is recorded when ceil(t_tot/dt)+1 <= 10000 (dt = 0.667 s at 0.04 m, 0.375 s at 0.03 m)
     height, t_tot, rate, s0 = rng.choice([(0.04, 6000.0, 0.2, 500), (0.04, 5400.0, 0.5, 800), (0.03, 3600.0, 1.0, 1000)])
-    cls = cls or rng.choice(["early", "early", "straddle", "solid", "beyond", "empty", "negative", "whole"])
+    cls = cls or rng.choice(["early", "early", "straddle", "solid", "beyond", "empty", "negative", "whole",
+                             "start0", "start0-empty"])
     if cls == "early":
         t_start = rng.uniform(0.002, 0.02)
         t_dur = rng.uniform(0.002, 0.01)
@@ -654,7 +664,12 @@ def _window_case(rng, cls=None):
         t_dur = rng.uniform(0.01, 0.5)
     elif cls == "empty":
         t_start = rng.uniform(0.0, 0.5)
-        t_dur = 0.0
+        t_dur = rng.choice([0, 0.0])          # exactly zero, as int and as float
+    elif cls == "start0":
+        t_start = rng.choice([0, 0.0])        # window open from the first step
+        t_dur = rng.uniform(0.004, 0.03)
+    elif cls == "start0-empty":
+        t_start, t_dur = 0, 0
     elif cls == "negative":
         t_start = rng.uniform(0.05, 0.5)
         t_dur = -rng.uniform(0.01, 0.04)
@@ -674,7 +689,7 @@ def cases(rng, tier):
     yield dict(kind="correlation")
     for _ in range(n_utils):
         yield _utils_case(rng)
-    must = ["early", "straddle", "solid", "beyond", "empty"]
+    must = ["early", "straddle", "solid", "beyond", "empty", "start0", "start0-empty"]
     for i in range(n_win):
         yield _window_case(rng, must[i] if i < len(must) else None)
 
